@@ -160,3 +160,20 @@ func verifUvarintBounds(buf []byte) bool {
 //@   trusted
 //@   ensures result == memhash(data)
 //@   modifies nothing
+
+// Quick-tier variant of the header round trip: zero lengths make the first two varints
+// one constant byte each, so the Meta and ExpiresAt fields (every value, including
+// Meta >= 0x80 which needs a two-byte varint) are checked on every run.
+//
+//@ func verifHeaderMetaRoundTrip
+//@   property C16
+//@   tag inline-calls
+//@   ensures [roundtrip] result
+func verifHeaderMetaRoundTrip(meta byte, expiresAt uint64) bool {
+	h := EntryHeader{Meta: meta, ExpiresAt: expiresAt}
+	var buf [MaxEntryHeaderSize]byte
+	n := h.Encode(buf[:])
+	var d EntryHeader
+	m, err := d.Decode(buf[:n])
+	return err == nil && m == n && d == h
+}
